@@ -157,7 +157,7 @@ theorem step_total (cfg : Cfg) (hg : cfg.good = true) (ar : Arith) (kind : Kind)
 /-! ### counterexamples: one closed history per bad fact, valid whatever the other facts are -/
 
 /-- arithmetic for the witnesses (none of them uses floats) -/
-def ar0 : Arith := ⟨fun _ _ _ => 0, fun _ _ _ => false, fun _ _ _ => false⟩
+def ar0 : Arith := { fadd := fun _ _ _ => 0, flt := fun _ _ _ => false, feq := fun _ _ _ => false }
 
 def k5 : Item := { key := "k", val := .int .i64 5 }
 def k5u : Item := { key := "k", val := .int .i64 5, cb := "u1" }
@@ -179,6 +179,8 @@ def hEmptyLive : Hist := [(0, .size "k"), (0, .isSwamp)]
 def hArek : Hist := [(0, .areKeys ["k"])]
 def hCount : Hist := [(0, .count)]
 def hSetErr : Hist := [(0, .set false false [k5])]
+/-- `cur > ref` under an arithmetic in which no two numbers are ordered or equal (every operand a NaN) -/
+def hNan : Hist := [(0, .inc (.flt .f64) "k" 4607182418800017408 (some (.gt, 0)) none none)]
 
 /-- a history on which replies or final stores differ refutes `Holds` -/
 theorem not_holds_of (cfg : Cfg) (ar : Arith) (kind : Kind) (h : Hist)
@@ -198,9 +200,9 @@ macro "kv_eval" "[" hs:Lean.Parser.Tactic.simpLemma,* "]" : tactic => `(tactic|
     Model.u32delLoop, Model.u32delOne, Model.u32delFinish, Model.deleteRec, Model.idxRemove, Model.idxAdd,
     errOr, Val.scalar, Val.isSlice, Val.sliceD, Model.incStep, Model.incCore, Model.incStart, Model.incApply,
     Model.park, Model.applyIncMeta, Spec.incStep, Spec.incCore, Spec.incStart, Spec.applyIncMeta, numIsZero,
-    numZero, numVal, numOf, numAdd, numCmp, condHolds, metaResp, flagMap, loadRec,
+    numZero, numVal, numOf, numAdd, numCmp, numWrap, IntTy.wrap, IntTy.bits, IntTy.signed, condHolds, metaResp, flagMap, loadRec,
     k5, k5u, kNeg, kVoid, kS1, kS2, hSticky, hMeta, hTs, hVoid, hPushTyped, hSliceMerge, hDeadlock, hDelTyped,
-    hIncFail, hEmptyLive, hArek, hCount, hSetErr])
+    hIncFail, hEmptyLive, hArek, hCount, hSetErr, hNan, Model.cmpArith, Model.negCmp, Model.isFltOrd, fltIsZero, ar0])
 
 
 theorem wit_setErr (cfg : Cfg) (h : cfg.setErrSingle = false) : ¬ Holds cfg := by
@@ -239,6 +241,9 @@ theorem wit_delTyped (cfg : Cfg) (h : cfg.u32delChecksType = false) : ¬ Holds c
 theorem wit_incFail (cfg : Cfg) (h : cfg.incFailClean = false) : ¬ Holds cfg := by
   apply not_holds_of cfg ar0 .mem hIncFail
   kv_eval [h]
+theorem wit_nanCond (cfg : Cfg) (h : cfg.fltCondDirect = false) : ¬ Holds cfg := by
+  apply not_holds_of cfg ar0 .mem hNan
+  cases h0 : cfg.resetsFlags <;> cases h1 : cfg.incFailClean <;> kv_eval [h, h0, h1]
 theorem wit_emptyLive (cfg : Cfg) (h : cfg.noEmptyLive = false) : ¬ Holds cfg := by
   apply not_holds_of cfg ar0 .mem hEmptyLive
   kv_eval [h]
@@ -283,7 +288,10 @@ theorem not_holds_of_not_good (cfg : Cfg) (h : cfg.good = false) : ¬ Holds cfg 
   | true =>
   cases h13 : cfg.setErrSingle with
   | false => exact wit_setErr cfg h13
-  | true => simp [Cfg.good, h1, h2, h3, h4, h5, h6, h7, h8, h9, h10, h11, h12, h13] at h
+  | true =>
+  cases h14 : cfg.fltCondDirect with
+  | false => exact wit_nanCond cfg h14
+  | true => simp [Cfg.good, h1, h2, h3, h4, h5, h6, h7, h8, h9, h10, h11, h12, h13, h14] at h
 
 /-- non-vacuity: the repaired facts are good, the current ones are not; and the partial theorem's
     hypothesis is met by real histories (a create, a read and a delete raise no tag even with
@@ -291,12 +299,12 @@ theorem not_holds_of_not_good (cfg : Cfg) (h : cfg.good = false) : ¬ Holds cfg 
 def repaired : Cfg :=
   { resetsFlags := true, metaCompare := true, tsPositive := true, voidClears := true, pushChecksType := true,
     setSliceReplaces := true, u32delReleases := true, u32delChecksType := true, incFailClean := true,
-    noEmptyLive := true, arekAllFalse := true, countMissingOk := true, setErrSingle := true,
+    noEmptyLive := true, arekAllFalse := true, countMissingOk := true, setErrSingle := true, fltCondDirect := true,
     saveReleasesImmediate := true, encoding := .gobOmitZero }
 def current : Cfg :=
   { resetsFlags := false, metaCompare := false, tsPositive := false, voidClears := false, pushChecksType := false,
     setSliceReplaces := false, u32delReleases := false, u32delChecksType := false, incFailClean := false,
-    noEmptyLive := false, arekAllFalse := false, countMissingOk := false, setErrSingle := false,
+    noEmptyLive := false, arekAllFalse := false, countMissingOk := false, setErrSingle := false, fltCondDirect := false,
     saveReleasesImmediate := true, encoding := .gobOmitZero }
 example : repaired.good = true := by decide
 example : current.good = false := by decide
@@ -330,7 +338,11 @@ structure Facts where
   arekAllFalse : Tri
   countMissingOk : Tri
   setErrSingle : Tri
+  fltCondDirect : Tri
   saveReleasesImmediate : Tri
+  /-- replies show every non-zero ExpiredAt (environment of the run, see `Arith.expNe0`; not part of
+      the refinement statement, which holds for either value) -/
+  wireExpNe0 : Tri
   deriving DecidableEq, Repr
 
 def hasUnknown (f : Facts) : Bool :=
@@ -338,7 +350,7 @@ def hasUnknown (f : Facts) : Bool :=
   f.voidClears == .unknown || f.pushChecksType == .unknown || f.setSliceReplaces == .unknown ||
   f.u32delReleases == .unknown || f.u32delChecksType == .unknown || f.incFailClean == .unknown ||
   f.noEmptyLive == .unknown || f.arekAllFalse == .unknown || f.countMissingOk == .unknown ||
-  f.setErrSingle == .unknown || f.saveReleasesImmediate == .unknown
+  f.setErrSingle == .unknown || f.fltCondDirect == .unknown || f.saveReleasesImmediate == .unknown || f.wireExpNe0 == .unknown
 
 /-- the storage encoding does not occur in any request handler (it matters for C05 only) -/
 def cfgOf (f : Facts) : Cfg :=
@@ -348,7 +360,7 @@ def cfgOf (f : Facts) : Cfg :=
     u32delChecksType := f.u32delChecksType.isYes, incFailClean := f.incFailClean.isYes,
     noEmptyLive := f.noEmptyLive.isYes, arekAllFalse := f.arekAllFalse.isYes,
     countMissingOk := f.countMissingOk.isYes, setErrSingle := f.setErrSingle.isYes,
-    saveReleasesImmediate := f.saveReleasesImmediate.isYes, encoding := .gobOmitZero }
+    fltCondDirect := f.fltCondDirect.isYes, saveReleasesImmediate := f.saveReleasesImmediate.isYes, encoding := .gobOmitZero }
 
 def findings (c : Cfg) : List String :=
   (if c.resetsFlags then [] else ["C06-sticky-changed-flags"]) ++
@@ -363,7 +375,8 @@ def findings (c : Cfg) : List String :=
   (if c.noEmptyLive then [] else ["C06-empty-swamp-materialised"]) ++
   (if c.arekAllFalse then [] else ["C06-arekeysexist-missing-swamp-error"]) ++
   (if c.countMissingOk then [] else ["C06-count-missing-swamp-error"]) ++
-  (if c.setErrSingle then [] else ["C06-set-error-entry-duplicated"])
+  (if c.setErrSingle then [] else ["C06-set-error-entry-duplicated"]) ++
+  (if c.fltCondDirect then [] else ["C06-nan-condition-passes"])
 
 def classify (f : Facts) : Verdict :=
   if hasUnknown f then .undetermined "a request-handler pattern of gateway.go / swamp.go / treasure.go was not recognised"
